@@ -96,9 +96,9 @@ def main(ctx):
                          {'val': v, 'bitwidth': bw, 'signed': signed})
                 # val_to_signed_integer inverts the signed encoding
                 if st == 'ok' and (signed or v < 0):
-                    back = hf.val_to_signed_integer(r.value, r.bitwidth)
-                    if back != v:
-                        viol('signed-inverse', 'val_to_signed_integer(%d, %d) = %d, encoded from %d' % (r.value, r.bitwidth, back, v),
+                    stb, back = call(hf.val_to_signed_integer, r.value, r.bitwidth)
+                    if stb != 'ok' or back != v:
+                        viol('signed-inverse', 'val_to_signed_integer(%d, %d) = %r, encoded from %d' % (r.value, r.bitwidth, back, v),
                              {'val': v, 'bitwidth': bw})
         ctx.distinct.add(('int', v))
     # ---- verilog-style strings agree with the int form (on the unsigned domain and negatives)
@@ -144,11 +144,11 @@ def main(ctx):
     for bw in list(range(1, maxbw + 1)) + [16, 63, 64, 65, 130]:
         vs = range(1 << bw) if bw <= maxbw else [0, 1, (1 << bw) - 1, 1 << (bw - 1), (1 << (bw - 1)) - 1] + [rng.getrandbits(bw) for _ in range(20)]
         for v in vs:
-            sv = hf.val_to_signed_integer(v, bw)
+            stv, sv = call(hf.val_to_signed_integer, v, bw)
             want = v - (1 << bw) if v >> (bw - 1) else v
             ctx.evaluations += 1
-            if sv != want:
-                viol('val_to_signed', 'val_to_signed_integer(%d, %d) = %d, expected %d' % (v, bw, sv, want), {'val': v, 'bitwidth': bw})
+            if stv != 'ok' or sv != want:
+                viol('val_to_signed', 'val_to_signed_integer(%d, %d) = %r (%s), expected %d' % (v, bw, sv, stv, want), {'val': v, 'bitwidth': bw})
             tie_rows['val_to_signed'].append([v, bw, 0])
             tie_real['val_to_signed'].append(sv)
             for t in 'sxbu':
